@@ -380,13 +380,19 @@ fn do_resolve<Fd: AsFd, P: AsRef<Path>>(
                         });
                     }
 
-                    // Verify that we can follow the link.
-                    // MSRV(1.69): Remove &*.
-                    may_follow_link(&*current, &next).with_wrap(|| {
-                        format!(
-                            "component {part:?} is an unsafe symlink that is blocked by fs.protected_symlinks"
-                        )
-                    })?;
+                    // Verify that we can follow the link. Like the kernel
+                    // (which only does this for WALK_TRAILING lookups), the
+                    // fs.protected_symlinks restriction only applies to links
+                    // in a trailing position -- the final component of the
+                    // path, or of the body of such a trailing link.
+                    if remaining_components.is_empty() {
+                        // MSRV(1.69): Remove &*.
+                        may_follow_link(&*current, &next).with_wrap(|| {
+                            format!(
+                                "component {part:?} is an unsafe symlink that is blocked by fs.protected_symlinks"
+                            )
+                        })?;
+                    }
 
                     // We need a limit on the number of symlinks we traverse to
                     // avoid hitting filesystem loops and DoSing.
